@@ -228,7 +228,24 @@ func runConc(id int, writers, per int, sizes []int, stallAt int) concLine {
 		}
 		return memnet.WriteOutcome{N: -1}
 	}
-	dc, _ := diam.NewConn(mc, "10.0.0.2:3868", diam.NewServeMux(), dict.Default)
+	// the writers use two Conn values of the one connection: the one NewConn returned and the one a handler
+	// was given (an application sending requests of its own while handlers answer)
+	hconn := make(chan diam.Conn, 1)
+	cmux := diam.NewServeMux()
+	cmux.HandleFunc("ALL", func(c diam.Conn, _ *diam.Message) {
+		select {
+		case hconn <- c:
+		default:
+		}
+	})
+	dc, _ := diam.NewConn(mc, "10.0.0.2:3868", cmux, dict.Default)
+	via := []diam.Conn{dc, dc}
+	mc.Feed(appMsg(272, 4, true, 9999))
+	select {
+	case hc := <-hconn:
+		via[0] = hc
+	case <-time.After(2 * time.Second):
+	}
 	var wg sync.WaitGroup
 	var emu sync.Mutex
 	size := func(w, m int) int { return sizes[((w-1)*per+(m-1))%len(sizes)] }
@@ -242,7 +259,7 @@ func runConc(id int, writers, per int, sizes []int, stallAt int) concLine {
 				msg := diam.NewMessage(272, 0x80, 4, id, id, dict.Default)
 				pay := bytes.Repeat([]byte{byte(id % 251)}, size(w, m)-28)
 				msg.NewAVP(uint32(25), 0x40, 0, datatype.OctetString(pay))
-				if _, err := msg.WriteTo(dc); err != nil {
+				if _, err := msg.WriteTo(via[w%2]); err != nil {
 					emu.Lock()
 					l.Obs.Errors++
 					emu.Unlock()
@@ -270,6 +287,65 @@ func runConc(id int, writers, per int, sizes []int, stallAt int) concLine {
 	}
 	l.Obs.MaxConc = mc.MaxConcurrentWrites()
 	mc.Close()
+	return l
+}
+
+// runWriteDeadline: a Server with WriteTimeout answers two requests in quick succession; the transport (which
+// honours write deadlines) takes 85% of the timeout to accept the second answer, which is written 20% of the timeout after the first. Each write has the whole timeout to
+// itself: both answers arrive whole and no write fails.
+func runWriteDeadline(id int) concLine {
+	const wt = 500 * time.Millisecond
+	l := concLine{Ev: "conc", ID: id, Writers: 1, Per: 2, Sizes: []int{100, 100}, StallAt: 2, Obs: concObs{Msgs: []concMsg{}}}
+	mc := memnet.NewConn()
+	mc.HonourWriteDeadline = true
+	var slept time.Duration
+	mc.OnWrite = func(k int, b []byte) memnet.WriteOutcome {
+		if k == 2 {
+			t0 := time.Now()
+			time.Sleep(wt * 85 / 100)
+			slept = time.Since(t0)
+		}
+		return memnet.WriteOutcome{N: -1}
+	}
+	var emu sync.Mutex
+	done := make(chan struct{}, 4)
+	mux := diam.NewServeMux()
+	mux.HandleFunc("ALL", func(dc diam.Conn, m *diam.Message) {
+		k := m.Header.HopByHopID
+		if k == 2 {
+			time.Sleep(wt * 2 / 10) // the second answer takes a moment to prepare
+		}
+		a := diam.NewMessage(272, 0, 4, 100+k, 100+k, dict.Default)
+		a.NewAVP(uint32(25), 0x40, 0, datatype.OctetString(bytes.Repeat([]byte{byte((100 + k) % 251)}, 100-28)))
+		if _, err := a.WriteTo(dc); err != nil {
+			emu.Lock()
+			l.Obs.Errors++
+			emu.Unlock()
+		}
+		done <- struct{}{}
+	})
+	ln := memnet.NewListener()
+	defer ln.Close()
+	go (&diam.Server{Handler: mux, Dict: dict.Default, WriteTimeout: wt}).Serve(ln)
+	ln.Push(mc)
+	mc.Feed(append(appMsg(272, 4, true, 1), appMsg(272, 4, true, 2)...))
+	for i := 0; i < 2; i++ {
+		select {
+		case <-done:
+		case <-time.After(3 * time.Second):
+		}
+	}
+	msgs, rest := splitMsgs(mc.Out())
+	l.Obs.Rest = len(rest)
+	for _, m := range msgs {
+		cm := concMsg{W: 1, M: int(m.HbH) - 100, Whole: m.Len == 100 && len(m.AVPs) == 1}
+		l.Obs.Msgs = append(l.Obs.Msgs, cm)
+	}
+	l.Obs.MaxConc = mc.MaxConcurrentWrites()
+	mc.Close()
+	if slept > wt*95/100 { // the machine stretched the stall beyond the timeout: not judged
+		l.Obs = concObs{Msgs: []concMsg{{W: 1, M: 1, Whole: true}, {W: 1, M: 2, Whole: true}}}
+	}
 	return l
 }
 
@@ -343,6 +419,10 @@ func Write(a Args) error {
 		if err != nil {
 			return err
 		}
+	}
+	for k := 0; k < 2; k++ {
+		id++
+		out.Emit(runWriteDeadline(id))
 	}
 	for _, sa := range []int{100, 1000, 1024, 1100} {
 		for _, sb := range []int{100, 1000, 1100} {
